@@ -315,7 +315,7 @@ Section Algebra.
           (* a and b are replaced by their combination *)
           transitivity (big1 A f (esem ((a :: b :: h2) ++ tmp))).
           2:{ apply (big1_perm f AC). unfold esem. apply Permutation_map.
-              apply Permutation_app_tail. rewrite P1. constructor. assumption. }
+              apply Permutation_app_tail. rewrite P1. constructor. symmetry. assumption. }
           unfold esem. rewrite app_assoc, map_app. cbn [map fst].
           transitivity (big1 A f ((lden A (simple_boolean A o (fst a) (fst b))) :: map (fun e : entry A => lden A (fst e)) (h2 ++ tmp))).
           { apply (big1_perm f AC). rewrite <- Permutation_middle, app_nil_r. reflexivity. }
